@@ -214,8 +214,12 @@ class Ctx(object):
     # ---- result -----------------------------------------------------------
     def result(self):
         reach = {}
+        lines = {}
         if self.reach is not None:
             reach = dict(self.reach.counts)
+            lines = {}
+            for rel, ln in self.reach.lines:
+                lines.setdefault(rel, []).append(ln)
         vt = {}
         if self.vtrace is not None:
             vt = {"entered": dict(self.vtrace.entered), "raised": dict(self.vtrace.raised)}
@@ -230,6 +234,7 @@ class Ctx(object):
             "classes": self.classes,
             "monitors": self.monitors,
             "reach": reach,
+            "lines": lines,
             "validators": vt,
             "violations": self.violations,
             "violation_count": self.violation_count,
